@@ -49,11 +49,20 @@ func C09_Vote() {
 	wd.blk = &stub.Block{H: 1, Tag: 0x21, ProposalOK: true}
 	hash := stub.HashOf(wd.blk)
 	n.deliver(net.ppm(0, 1, 0, wd.blk).ToConsensusRawMessage())
+	// ghost: whose PREPAREs the node holds per view (its own PREPARE and the leader's proposal count too)
+	ids0, use0 := []byte{1, byte(me + 1)}, []bool{true, true}
+	ids1, use1 := []byte{2, byte(me + 1)}, []bool{true, true}
 	for i := 1; i < 4; i++ {
-		if i != me && env.NondetBool("prepare_from") {
-			n.deliver(net.pm(i, 1, 0, hash).ToConsensusRawMessage())
+		if i != me {
+			from := env.NondetBool("prepare_from")
+			ids0, use0 = append(ids0, byte(i+1)), append(use0, from)
+			if from {
+				n.deliver(net.pm(i, 1, 0, hash).ToConsensusRawMessage())
+			}
 		}
 	}
+	refPrepared0 := ref.weight(ids0, use0) >= ref.q()
+	refPrepared1 := false
 	prepared0 := false
 	if v, ok := n.m.worker.leanHelixTerm != nil, true; v && ok {
 		_, prepared0 = wd.termPrepared()
@@ -72,11 +81,17 @@ func C09_Vote() {
 				votes = append(votes, net.vcm(i, 1, 1, net.prepared(1, 0, wd.blk, othersOf(0, i))))
 			}
 			n.deliver(net.nvm(1, 1, 1, votes, wd.blk).ToConsensusRawMessage())
+			adopted := n.m.state.View() == 1
 			for i := 0; i < 4; i++ {
-				if i != me && i != 1 && env.NondetBool("prepare1_from") {
-					n.deliver(net.pm(i, 1, 1, hash).ToConsensusRawMessage())
+				if i != me && i != 1 {
+					from := env.NondetBool("prepare1_from")
+					ids1, use1 = append(ids1, byte(i+1)), append(use1, from)
+					if from {
+						n.deliver(net.pm(i, 1, 1, hash).ToConsensusRawMessage())
+					}
 				}
 			}
+			refPrepared1 = adopted && ref.weight(ids1, use1) >= ref.q()
 			pv, pok := wd.termPrepared()
 			prepared1 = pok && pv == 1
 		}
@@ -105,7 +120,23 @@ func C09_Vote() {
 	env.Assert("C09.vc.view", hdr.View() == cur.View())
 	proof := hdr.PreparedProof()
 	hasProof := proof != nil && len(proof.Raw()) > 0
-	pv, isPrepared := wd.termPrepared()
+	// the node's highest prepared view, judged from the outside: it sends COMMIT(v) exactly when it becomes
+	// prepared in v (no COMMITs are delivered in this harness), so the reference does not depend on the term's
+	// own bookkeeping of its lock
+	pv, isPrepared := primitives.View(0), false
+	for _, s := range n.comm.Out {
+		if cm, ok := s.Msg.(*interfaces.CommitMessage); ok {
+			if !isPrepared || cm.View() > pv {
+				pv = cm.View()
+			}
+			isPrepared = true
+		}
+	}
+	tv, tok := wd.termPrepared()
+	env.Assert("C09.vc.lock_bookkeeping", tok == isPrepared && (!tok || tv == pv))
+	// ... and from the messages it was given: a proposal plus PREPAREs of quorum weight (its own included)
+	env.Assert("C09.vc.prepared_iff_certificate_held", isPrepared == env.Or(refPrepared0, refPrepared1))
+	env.Assert("C09.vc.prepared_view_is_highest_certificate", env.Implies(refPrepared1, pv == 1))
 	env.Assert("C09.vc.has_proof_iff_prepared", hasProof == isPrepared)
 	if !isPrepared {
 		env.Assert("C09.vc.no_block_when_unprepared", vote.Block() == nil)
